@@ -393,6 +393,8 @@ impl BufRead for FaultReader<'_> {
 pub enum WriteFault {
     /// `write` returns this error once `fail_at` bytes were accepted
     Err(ErrorKind),
+    /// `write` returns this error exactly once, when `fail_at` bytes were accepted, and accepts data again afterwards
+    ErrOnce(ErrorKind),
     /// `write` returns `Ok(0)` once `fail_at` bytes were accepted
     Zero,
     /// all writes succeed, `flush` fails
@@ -437,6 +439,15 @@ impl Write for FaultWriter {
                     return Err(io::Error::new(kind, "injected write fault"));
                 }
                 let n = buf.len().min(self.fail_at - self.out.len());
+                self.out.extend_from_slice(&buf[..n]);
+                Ok(n)
+            }
+            WriteFault::ErrOnce(kind) => {
+                if self.out.len() >= self.fail_at && self.faults_reported == 0 {
+                    self.faults_reported += 1;
+                    return Err(io::Error::new(kind, "injected one-off write fault"));
+                }
+                let n = if self.faults_reported == 0 { buf.len().min(self.fail_at - self.out.len()) } else { buf.len() };
                 self.out.extend_from_slice(&buf[..n]);
                 Ok(n)
             }
